@@ -19,6 +19,7 @@ func init() {
 			`R02.2 commit phases run in the required order with errors checked (dirs+symlinks before transpositions and moves; transpositions before overlays and ghost deletion); R02.3 ghosts are deleted longest path first; R02.5 ghost detection covers files, symlinks and dirs on both sides; R02.4 overlay application ends with truncation; ` +
 			`R02.6 index-space consistency: no integer flows both into a use as an index of the new build's file list and into a use as an index of the old build's (bowl, patcher, rediff, diff); R02.7 in the bowl, every MkdirAll of a path derived from a tlc.Dir entry is preceded on every path by Lstat of the same path. ` +
 			`R03.6 (shared) an append to the overlay bowl's work lists is protected by a completed search of the list itself. ` +
+			`R14.7 (shared) each field that OverlayPatchContext.Patch assigns is assigned before it is first read or is zero again on every success return (the bowl applies all overlays of a commit with one context). ` +
 			`NOT decided: that the commit result equals the new build, independence from map iteration order in applyTranspositions, kind changes (old non-empty directory -> new file).`,
 		Assumptions: []string{
 			"file-system mutators are the screw/os functions OpenFile(with write flags)/Create/Remove/RemoveAll/Rename/Mkdir/MkdirAll/Symlink/Truncate/Chmod/WriteFile, FsPool.GetWriter and Container.Prepare",
@@ -208,6 +209,8 @@ func runC02(c *core.Ctx) {
 	c.Rule("R02.5", "ghost detection covers every entry kind")
 	c.Rule("R02.6", "index-space consistency")
 	ruleWorkListDedup(c)
+	ruleCommitWritersReplace(c)
+	ruleUseStartsClean(c, "R14.7", "pwr/overlay", "OverlayPatchContext", "Patch")
 	c.Rule("R02.7", "directories are made after a no-follow look")
 	g := c.P.CallGraph(c.Tier == "thorough")
 	reachFrom := func(roots []*ssa.Function) map[*ssa.Function]bool {
@@ -698,4 +701,61 @@ func ruleCopiesTruncate(c *core.Ctx) {
 		c.Floor("R02.8", "whole-file copies between opened files", nCp, 1)
 	}
 
+}
+
+// ruleCommitWritersReplace is R02.9 (shared with C01): a regular file of the new build can stand where the old
+// build had a symbolic link. Opening that path for writing follows the link: the bytes land in the link's
+// target - another file of the build - and the link stays. Where the overlay bowl creates a file at a path of
+// the output folder (O_CREATE), every path to the open first removes what stands there, as its sibling move
+// does before renaming.
+func ruleCommitWritersReplace(c *core.Ctx) {
+	c.Rule("R02.9", "files created in the output folder replace what stands at their path")
+	flag := func(name string) int64 {
+		if pk := c.P.All["os"]; pk != nil {
+			if k, ok := pk.Types.Scope().Lookup(name).(*types.Const); ok {
+				v, _ := constInt64(k)
+				return v
+			}
+		}
+		return -1
+	}
+	oCreate := flag("O_CREATE")
+	n := 0
+	for _, fn := range c.P.SrcFuncs() {
+		if !strings.HasSuffix(core.PkgPathOf(fn), "/pwr/bowl") {
+			continue
+		}
+		// methods of the overlay bowl itself: its entry writers create files in the stage folder
+		if fn.Signature.Recv() == nil || !strings.HasSuffix(core.TypeName(fn.Signature.Recv().Type()), "bowl.overlayBowl") {
+			continue
+		}
+		core.Instrs(fn, func(in ssa.Instruction) {
+			op, ok := in.(*ssa.Call)
+			if !ok || !strings.HasSuffix(core.CalleeName(op), ".OpenFile") || len(op.Call.Args) < 2 {
+				return
+			}
+			fl, isC := core.ConstInt(op.Call.Args[1])
+			if !isC || fl&oCreate == 0 {
+				return
+			}
+			n++
+			path := op.Call.Args[0]
+			isRemove := func(x ssa.Instruction) bool {
+				rc, ok := x.(*ssa.Call)
+				if !ok || len(rc.Call.Args) < 1 {
+					return false
+				}
+				nm := core.CalleeName(rc)
+				if !strings.HasSuffix(nm, ".Remove") && !strings.HasSuffix(nm, ".RemoveAll") {
+					return false
+				}
+				return sameVal(rc.Call.Args[0], path) || sameExpr(rc.Call.Args[0], path)
+			}
+			p := core.FindPath(fn, nil, isInstr(in), isRemove)
+			c.Check(p == nil, "R02.9", core.FnName(fn), "the path is cleared before a file is created there: "+core.Describe(path), core.InstrPos(in),
+				"every path to the open removes what stands at the destination first",
+				"a file of the new build is created by opening its path for writing without removing what stands there: where the old build had a symbolic link the open follows it, the link's target (another file of the build) is overwritten and the link stays - in-place application then differs from fresh application, silently").Path = c.P.PathStrings(p)
+		})
+	}
+	c.Floor("R02.9", "files created by overlay bowl methods", n, 1)
 }
